@@ -97,6 +97,12 @@ class PositionAndLook(MutableRecord):
     """
     __slots__ = 'x', 'y', 'z', 'yaw', 'pitch'
 
+    def __init__(self, *args, **kwds):
+        # Positional arguments are accepted in slot order, as required by
+        # 'multi_attribute_alias' when given positional attribute names.
+        kwds.update(zip(self.__slots__, args))
+        super(PositionAndLook, self).__init__(**kwds)
+
     position = multi_attribute_alias(Vector, 'x', 'y', 'z')
 
     look = multi_attribute_alias(Direction, 'yaw', 'pitch')
